@@ -1,11 +1,13 @@
 rc_target("c15_ring", flavour="sched", wrap=True)
-plan("C15", [T("c15_ring", 5000, 40000)], min_nt=300,
+# second engine: free-running acquirer / releaser under ThreadSanitizer (head / tail accesses that lost their atomicity or ordering)
+rc_target("c15_race", flavour="tsan", race_oracle=True)
+plan("C15", [T("c15_ring", 5000, 40000), T("c15_race", 1500, 12000, 3, 8)], min_nt=300,
      rule="sequential histories and two-thread histories under generated schedules (walk / bounded-preemption / PCT)",
-     technique="property-based testing over (program, schedule) pairs: controlled scheduler with decision points at every atomic, overlap/containment/pattern oracle",
+     technique="property-based testing over (program, schedule) pairs: controlled scheduler with decision points at every atomic, overlap/containment/pattern oracle + the same kind of generated program on free-running threads under ThreadSanitizer (race report or functional oracle)",
      level_text="Generated search over request sequences and thread schedules. One acquirer and one releaser thread run on real pthreads under a "
                 "scheduler that serialises them and lets a generated schedule decide at every atomic load/store who continues; each vended "
                 "buffer is checked against every outstanding one, patterned and re-verified before release. Explores interleavings under "
-                "sequential consistency only; sampling, not proof.",
+                "sequential consistency only; sampling, not proof. Second engine (*_race target): real parallel threads under ThreadSanitizer, whose happens-before analysis sees unsynchronised accesses that the controlled scheduler cannot (a section without lock calls has no decision point); a report or a functional failure there is a violation, replayed 12 times and reported when it shows twice.",
      assumptions=["sequential consistency: reorderings only a weaker memory model permits are not explored (DESIGN 4.4)",
                   "releases are issued in acquisition order by one thread, acquires by one other thread (the documented usage)",
                   "a buffer counts as released from the moment its release call is entered"])
